@@ -4,6 +4,7 @@ from .. import gen_cells, gen_univ, gen_lat, gen_mix, matref
 from ..judge import convert_deck, crash_violation, region_agreement, summarise
 
 ID = 'C09'
+UPSTREAM_DECKS = 'all'
 LEVEL = 'exploration'
 RULE = ('decks of the C01 (flat), C05 (nested) and C06/C07 (lattice, incl. '
         'own-universe elements) generators in which every cell has its own '
@@ -168,23 +169,10 @@ def class_key(rho):
     return key
 
 
-def run(case, ctx):
-    from ..core import Outcome
-    out = Outcome()
-    deck = build(case)
-    out.tags |= deck.tags
-    out.structure = (case.family + '|' + ';'.join(
-        f'{c.id}:{c.mat}:{c.rho}' for c in deck.cells))
-    run_ = convert_deck(case, ctx, out, deck)
-    if not run_.ok:
-        crash_violation(out, run_)
-        return out
-    res = region_agreement(case, ctx, out, deck, run_, n_uniform=1500)
-    if res is None:
-        return out
-    sides, mism, pts, t4 = res
-    if mism:
-        out.violation('region', summarise(mism))
+def judge_materials(out, deck, sides, t4):
+    '''GEOMCOMP of the written file against the material and density of the
+    cell owning each volume's points (sides.ref.leaf, filled in while the
+    probes were located).  Returns the number of volumes judged.'''
     assigned = {}
     for name, _n, ids in t4.geomcomp:
         for vid in ids:
@@ -226,6 +214,37 @@ def run(case, ctx):
             out.violation('split-composition', f'material/density class '
                           f'{value} is spread over compositions '
                           f'{sorted(names)}', mech=None)
+    return judged_vols
+
+
+def upstream_judge(out, deck, sides, t4, name, run_=None):
+    '''The repository's example decks: material and density of every volume
+    that holds judged points.'''
+    if not t4.has_geomcomp:
+        return
+    njudged = judge_materials(out, deck, sides, t4)
+    out.counters['volumes_judged'] += njudged
+    out.judged += njudged
+
+
+def run(case, ctx):
+    from ..core import Outcome
+    out = Outcome()
+    deck = build(case)
+    out.tags |= deck.tags
+    out.structure = (case.family + '|' + ';'.join(
+        f'{c.id}:{c.mat}:{c.rho}' for c in deck.cells))
+    run_ = convert_deck(case, ctx, out, deck)
+    if not run_.ok:
+        crash_violation(out, run_)
+        return out
+    res = region_agreement(case, ctx, out, deck, run_, n_uniform=1500)
+    if res is None:
+        return out
+    sides, mism, pts, t4 = res
+    if mism:
+        out.violation('region', summarise(mism))
+    judged_vols = judge_materials(out, deck, sides, t4)
     out.counters['volumes_judged'] += judged_vols
     out.judged += judged_vols
     out.nontrivial = judged_vols >= 3
